@@ -125,11 +125,15 @@ func c04Signatures(shape int) *refbundle.LSignatures {
 	case 4:
 		return &refbundle.LSignatures{Authorities: []refbundle.LAuthority{{Cert: fixtures.B.Leaf.Raw}},
 			Vouched: []refbundle.LVouched{{Authority: 24, Sig: pattern(256, 10), Signed: pattern(65536, 11)}}}
+	case 5: // optional members that are PRESENT BUT EMPTY (h''): a reader that keeps "absent" and "empty" apart by nil-ness must
+		// hand back empty, and a re-serialization must keep the keys
+		return &refbundle.LSignatures{Authorities: []refbundle.LAuthority{{Cert: fixtures.A.Leaf.Raw, OCSP: []byte{}, SCT: []byte{}}, {Cert: fixtures.A.CA.Raw, SCT: []byte{}}, {Cert: fixtures.B.Leaf.Raw, OCSP: []byte{}}},
+			Vouched: []refbundle.LVouched{{Authority: 0, Sig: []byte{}, Signed: []byte{}}, {Authority: 2, Sig: pattern(3, 12), Signed: []byte{}}}}
 	}
 	panic("c04Signatures")
 }
 
-const c04NumSigShapes = 5
+const c04NumSigShapes = 6
 
 // ---- case --------------------------------------------------------------------
 
